@@ -64,21 +64,29 @@ def run_rquery(w, q, fault=None):
         if q[3] == 2:                  # a rendering function that is not injective
             rfunc = (lambda v: "None" if v is None else f"w{w.id_of(v) % 2}")
         sort = (lambda v: std_key(w.id_of(v))) if q[2] else None
+        # callbacks are sometimes handed over as callable objects whose truth value is False
+        if rfunc is not None and (q[1] + len(w.objs)) % 2:
+            rfunc = Q.FalsyCallable(rfunc)
+        if sort is not None and (q[1] + len(w.objs)) % 3 == 0:
+            sort = Q.FalsyCallable(sort)
 
         def go():
             return ["text", canon_text(w, plaintext.basic_render(uni, rfunc=rfunc, sort=sort))]
         return Q.outcome_of(go)
     if t == "PYVIS":
-        rvfunc = (lambda v: f"v{w.id_of(v)}") if q[2] else None
+        rvfunc = (lambda v: f"r{w.id_of(v)}") if q[2] else None      # "r<id>": told apart from the default label (canonicalised to "v<id>")
+        if rvfunc is not None and (q[1] + len(w.objs)) % 2:
+            rvfunc = Q.FalsyCallable(rvfunc)
 
         def go():
             net = egpyvis.make_pyvis_net(uni, rvfunc=rvfunc) if not (len(q) > 3 and q[3]) else egpyvis.pyvis_render_customizable(uni, rvfunc=rvfunc)
-            nodes = []
+            nodes, kinds = [], []
             for n in net.nodes:
                 lab = canon_text(w, str(n["label"]))
-                nodes.append([n["id"], int(lab[1:]) if re.fullmatch(r"v\d+", lab) else -1])
+                nodes.append([n["id"], int(lab[1:]) if re.fullmatch(r"[vr]\d+", lab) else -1])
+                kinds.append(lab[:1])
             edges = [[e["from"], e["to"], e.get("arrows") == "to"] for e in net.edges]
-            return ["net", nodes, edges]
+            return ["net", nodes, edges, "".join(kinds)]
         return Q.outcome_of(go)
     if t == "PUML":
         def go():
